@@ -721,6 +721,7 @@ func TestC32(t *testing.T) {
 	r.Cases("trusting", r.N(300, 6000), trustingSession)
 	r.Cases("stream", r.N(1400, 80000), func(c *ev.Case) { session(c, false) })
 	r.Cases("corrupt", r.N(600, 30000), func(c *ev.Case) { session(c, true) })
+	framesGroup(r)
 
 	r.Floor("transport_selfcheck_ok", 40)
 	r.Floor("sessions_clean", 1200)
